@@ -67,13 +67,10 @@ End MetricsC.
    together with the order facts of SFOrder / RcbBalInst.  If a refactoring of
    C04 breaks this Module, only C06_rcb_fold_*_partial depend on it.
 
-   >>> PLACE RESERVED for C03/C04's [rcb_sched_indep]
-       (forall s1 s2, rcb_impl fuel s1 .. = rcb_impl fuel s2 ..), announced by
-       builder-C03 and not available at the time of writing.  When it lands as a
-       property theorem (say Properties.C04.C04_rcb_sched_indep): add a Module
-       RcbS below with one lemma closed by [exact] of it, a theorem
-       C06_rcb_sched_indep in Properties/C06.v, and demote the two
-       C06_rcb_fold_*_partial theorems to "ingredient" in the comments/docs. <<< *)
+   The whole-algorithm statement (forall s1 s2, rcb_impl fuel s1 .. = rcb_impl
+   fuel s2 ..) is the property theorem C03.C03_rcb_sched_indep, used directly by
+   C06_rcb_sched_indep in Properties/C06.v; the fold lemma below is kept as an
+   ingredient that says what ONE fold returns. *)
 Module RcbF.
   Import Coupe.Model.Rcb Coupe.Proofs.SFOrder Coupe.Proofs.RcbBalance Coupe.Proofs.RcbBalInst.
   Open Scope Z_scope.
